@@ -36,8 +36,10 @@ type inproc struct{ w *world }
 
 type nodeTree struct{ root *nodefs.N }
 
-func (t nodeTree) readFiles(s *layerSpec, rng *prng.R, n int) error { return readFiles(t.root, s, rng, n) }
-func (t nodeTree) close()                                          {}
+func (t nodeTree) readFiles(s *layerSpec, rng *prng.R, n int) error {
+	return readFiles(t.root, s, rng, n)
+}
+func (t nodeTree) close() {}
 
 func (d inproc) use(k *key) int { return d.w.lm.VerifUse(k.img.ref, k.dig) }
 
